@@ -317,9 +317,9 @@ impl Check for C17 {
                 Section { name: "large-listings-999..1001", runs: 150 },
             ],
             Tier::Thorough => vec![
-                Section { name: "fault-free-calls", runs: 400_000 },
-                Section { name: "calls-with-response-faults", runs: 400_000 },
-                Section { name: "large-listings-999..1001", runs: 3_000 },
+                Section { name: "fault-free-calls", runs: 2_000_000 },
+                Section { name: "calls-with-response-faults", runs: 2_000_000 },
+                Section { name: "large-listings-999..1001", runs: 6_000 },
             ],
         }
     }
